@@ -1047,7 +1047,8 @@ func NewNXActionDecTTLCntIDs(controllers uint16, ids ...uint16) *NXActionDecTTLC
 		zeros:          [4]uint8{},
 		cntIDs:         ids,
 	}
-	a.Length = 16 + uint16(2*len(ids))
+	// the action is padded with zeros to a multiple of 8 bytes (nx_action_cnt_ids)
+	a.Length = (16 + uint16(2*len(ids)) + 7) / 8 * 8
 	return a
 }
 
